@@ -85,6 +85,13 @@ def h_find_optimal(env):
         tabs.append(tab)
     asg = {o.name: env.choice("val_" + o.name, list(o.domain)) for o in others}
     asg_in = dict(asg)
+    # mixing +inf and -inf terms is undefined (NaN): excluded by precondition
+    for d in x.domain:
+        a = dict(asg)
+        a["x"] = d
+        terms = [t(**{v.name: a[v.name] for v in t.variables}) for t in tabs] + [xcost(d)]
+        if any(fx.is_inf(t) and t > 0 for t in terms) and any(fx.is_inf(t) and t < 0 for t in terms):
+            env.assume(False)
     r = env.call(R.find_optimal, x, asg_in, cons, mode)
 
     def L(d):
@@ -93,13 +100,6 @@ def h_find_optimal(env):
         return ssum([t(**{v.name: a[v.name] for v in t.variables}) for t in tabs]) + xcost(d)
 
     Ls = [L(d) for d in x.domain]
-    # mixing +inf and -inf terms is undefined (NaN): excluded by precondition
-    for d in x.domain:
-        a = dict(asg)
-        a["x"] = d
-        terms = [t(**{v.name: a[v.name] for v in t.variables}) for t in tabs] + [xcost(d)]
-        if any(fx.is_inf(t) and t > 0 for t in terms) and any(fx.is_inf(t) and t < 0 for t in terms):
-            env.assume(False)
     if isinstance(r, Raised):
         env.prove("find_optimal.no-raise", False, detail=lambda: (r, Ls, mode, vkind))
         return
